@@ -51,6 +51,7 @@ import EmuVerif.Proofs.TensorCx
 import EmuVerif.Props.C11
 import EmuVerif.Props.C25
 import Mathlib.Tactic.IntervalCases
+import Mathlib.Algebra.Order.Field.Rat
 
 set_option linter.unusedSectionVars false
 set_option linter.unusedVariables false
@@ -635,6 +636,56 @@ theorem expect_batch_seeded_range_bug :
     ∃ res, expectBatchAtSeeded 2 exOps exFs 1 exRt exLt = some res ∧ res[0]? = some [0, 0] ∧
       denseProd 2 (oneSiteOps 3 0 nOp) exFs = ⟨20, 0⟩ :=
   ⟨[[0, 0], [⟨17, 0⟩, ⟨75, 37⟩], [⟨8, 0⟩, ⟨51, 45⟩]], by decide +kernel, by decide +kernel, by decide +kernel⟩
+
+/-! non-vacuity of the `fill_results` theorems: normalisation over `Cx ℚ`, dark-atom padding, second moment -/
+
+/-- `(3|0⟩ + 4i|1⟩) ⊗ |0⟩`, norm² 25 -/
+def exN : List (Site (Cx ℚ)) :=
+  [{ dl := 1, d := 2, dr := 1, t := fun x _ _ => if x = 0 then ⟨3, 0⟩ else ⟨0, 4⟩ },
+   { dl := 1, d := 2, dr := 1, t := fun x _ _ => if x = 0 then 1 else 0 }]
+
+/-- the hypothesis of `normalised_of_inverse_norm` is satisfiable (`λ = 1/5`), hence so is `⟨ψ|ψ⟩ = 1` of the range theorems -/
+example : star (⟨1 / 5, 0⟩ : Cx ℚ) * ⟨1 / 5, 0⟩ * denseNormSq 2 exN = 1 := by decide +kernel
+example : denseNormSq 2 (scaleFactors (⟨1 / 5, 0⟩ : Cx ℚ) 0 exN) = 1 :=
+  normalised_of_inverse_norm 2 _ 0 exN (by decide) (by decide +kernel)
+example : 0 ≤ (denseDiag 2 (bitW 0) (scaleFactors (⟨1 / 5, 0⟩ : Cx ℚ) 0 exN)).re ∧
+    (denseDiag 2 (bitW 0) (scaleFactors (⟨1 / 5, 0⟩ : Cx ℚ) 0 exN)).re ≤ 1 :=
+  occupation_range 2 _ (normalised_of_inverse_norm 2 _ 0 exN (by decide) (by decide +kernel)) 0
+/-- test: the occupation of the normalised state is 16/25 -/
+example : denseDiag 2 (bitW 0) (scaleFactors (⟨1 / 5, 0⟩ : Cx ℚ) 0 exN) = ⟨16 / 25, 0⟩ := by decide +kernel
+
+/-- padding `exFs` with a dark atom at position 1: hypotheses of the `padded_*` theorems and their conclusions on the instance -/
+example : Wf exFs ∧ headDl exFs = 1 ∧ Dark.stateDim exFs = 2 ∧
+    Dark.getExtendedSiteIndex [true, false, true, true] (some 1) = some (some 2) :=
+  ⟨⟨rfl, rfl, rfl, trivial⟩, rfl, rfl, by decide⟩
+example : ∃ gs, Dark.extendedMps exFs [true, false, true, true] = some gs ∧ denseDiag 2 (bitW 1) gs = 0 ∧
+    denseDiag 2 (bitW 2) gs = denseDiag 2 (bitW 1) exFs ∧ denseNormSq 2 gs = denseNormSq 2 exFs :=
+  ⟨_, rfl, by decide +kernel, by decide +kernel, by decide +kernel⟩
+
+/-- `H = 1 ⊗ (|1⟩⟨0| + 2|0⟩⟨1|)` (bond dimension 1) and the recorded qr of `H @ H` (`q` = the merged matrix, `r = 1`) -/
+def exH : List (Site Z) :=
+  [{ dl := 1, d := 4, dr := 1, t := fun x _ _ => if x = 0 ∨ x = 3 then 1 else 0 },
+   { dl := 1, d := 4, dr := 1, t := fun x _ _ => if x = 2 then 1 else if x = 1 then ⟨2, 0⟩ else 0 }]
+def exHTape : List (QR3 Z) :=
+  [{ k := 1, q := fun lev _ _ => if lev = 0 ∨ lev = 3 then 1 else 0, r := fun _ _ _ => 1 },
+   { k := 1, q := fun lev _ _ => if lev = 0 ∨ lev = 3 then ⟨2, 0⟩ else 0, r := fun _ _ _ => 1 }]
+/-- `(|0⟩ + i|1⟩) ⊗ (|0⟩ + (1+i)|1⟩)` -/
+def exS : List (Site Z) :=
+  [{ dl := 1, d := 2, dr := 1, t := fun x _ _ => if x = 0 then ⟨1, 0⟩ else ⟨0, 1⟩ },
+   { dl := 1, d := 2, dr := 1, t := fun x _ _ => if x = 0 then ⟨1, 0⟩ else ⟨1, 1⟩ }]
+
+example : ZipOk 2 2 exH exH exHTape slider0 := by
+  simp only [ZipOk, exH, exHTape, slider0]
+  refine ⟨?_, ?_, trivial⟩ <;>
+    (intro a ha o ho j hj bt hbt rb hrb
+     simp only [Finset.sum_range_succ, Finset.sum_range_zero]
+     interval_cases a <;> interval_cases o <;> interval_cases j <;> interval_cases bt <;> interval_cases rb <;> decide)
+/-- hypotheses and conclusion of `second_moment_mps_eq_dense` on the instance: `⟨H²⟩ = 12`, `⟨H⟩ = 6 + 2i` (H is not Hermitian) -/
+example : ∃ H2, zipRight 2 2 exH exH exHTape = some H2 ∧ validChain 4 H2 = true ∧ validChain 4 exH = true ∧
+    validChain 2 exS = true ∧ expect exS H2 = some ⟨12, 0⟩ ∧ expect exS exH = some ⟨6, 2⟩ ∧
+    sumStrings 2 2 (fun s => sumStrings 2 2 (fun t =>
+      conj (amp exS s) * sumStrings 2 2 (fun u => opAmp 2 exH s u * opAmp 2 exH u t) * amp exS t)) = (⟨12, 0⟩ : Z) :=
+  ⟨_, rfl, by decide, by decide, by decide, by decide +kernel, by decide +kernel, by decide +kernel⟩
 
 end examples
 
